@@ -55,6 +55,7 @@ def gen_scenario(r, sid, masked):
     # timeline
     events, t = [], 0
     time_secs = []
+    no_time = r.random() < 0.3          # functions without @time_trigger take a different wait path in the legacy loop
     while True:
         t += r.choice([1, 1, 2, 3])
         if t >= horizon:
@@ -66,7 +67,7 @@ def gen_scenario(r, sid, masked):
             events.append({"t": t, "k": "set", "e": "b", "s": {"v": r.choice("01"), "x": "p"}})
         elif k < 0.7:
             events.append({"t": t, "k": "fire", "e": "-", "s": {"v": "-", "x": "-"}})
-        elif k < 0.88:
+        elif k < 0.88 and not no_time:
             events.append({"t": t, "k": "time", "e": "-", "s": {"v": "-", "x": "-"}})
             time_secs.append(t)
         else:
